@@ -9,8 +9,14 @@
     installed value therefore sits directly on top of [p] in the write order.
     NOT yet proved: the counting corollary (k concurrent increments add exactly k) as a
     theorem over all schedules — it needs the history/ownership invariants; it is covered by
-    the correspondence runs and their oracle only. *)
-From ASModel Require Import Base State Orderings_gen Step Run Progress Hist.
+    the correspondence runs and their oracle only. 
+    The guard rcu holds on the value it read ([WRcuCas], [RAlloc], [RInc], ...) keeps that value alive
+    and identical across every step of any thread ([C06_guard_keeps_identity], all schedules within
+    [Main.RunOK]): the closure's input cannot be replaced by another object at the same address.
+*)
+From ASModel Require Import Base State Orderings_gen Step Run Progress Hist Inv InvTl InvProto InvStep Sum StepCases.
+From ASModel Require Import GenDefs Gen1 Gen2 Gen EnvDefs Env4 Env AccDefs Acc1 Acc2 Acc3 Acc4 Acc5 Acc6 Acc7 Acc.
+From ASModel Require Import ProtDefs Prot1 Prot11 Prot16 Prot Typed LinDefs Lin2 Lin Safe1 Safe2 Safe7 Safe8 Safe Main Alive.
 
 Theorem C06_first_attempt_on_loaded_value :
   forall cf l c m p d, rcu_attempt_shape c p (snd (resume cf l (WRcuLoad c m) (RGuard p d))).
@@ -38,6 +44,14 @@ Theorem C06_retry_or_return :
     else (exists fs m', nx = NPush fs (WRcuNext c m' q dq)) \/ rcu_attempt_shape c q nx.
 Proof. exact rcu_after_cas. Qed.
 
+Theorem C06_guard_keeps_identity : forall cf s t t' x p v d,
+  GenBound s -> ProgOK s -> alloc_ok s t' x -> Master s ->
+  In p (t_stack (thr s t)) -> In p (t_stack (thr (fst (step cf s t' x)) t)) ->
+  guard_frame p = Some (v, d) -> valid v ->
+  heap (sh (fst (step cf s t' x))) v = heap (sh s) v /\ heap (sh s) v <> None.
+Proof. exact frame_guard_identity. Qed.
+
 Print Assumptions C06_first_attempt_on_loaded_value.
 Print Assumptions C06_new_value_exchanged_against_p.
 Print Assumptions C06_retry_or_return.
+Print Assumptions C06_guard_keeps_identity.
